@@ -1221,7 +1221,7 @@ class ProgramData:
             else:
                 return default
 
-        if type(obj) is lark.Tree:
+        if isinstance(obj, lark.Tree):
             if tag == DTAG.SOURCE_LINE:
                 return obj.meta.line
             elif tag == DTAG.SOURCE_COLUMN:
@@ -4232,6 +4232,18 @@ class MacroArgument:
 
         return self.kind in (MacroArgumentKind.MACRO, MacroArgumentKind.OUT, MacroArgumentKind.HOOK, MacroArgumentKind.LOOP, MacroArgumentKind.FINISHCODE, MacroArgumentKind.YIELDCODE)
     
+class BoundArgumentTree(lark.Tree):
+    """
+    A match/expr macro argument, together with the argument frames that were active where it was written.
+
+    These arguments are expanded late (their meaning depends on where they are used), but names inside them still
+    refer to the scope of the call site, not to whatever the called macro happens to name its own arguments.
+    """
+
+    def __init__(self, tree: lark.Tree, scope):
+        super().__init__(tree.data, tree.children, tree.meta)
+        self.scope = tuple(scope)
+
 class Macro:
     def __init__(self, name_token: lark.Token, parse_tree: lark.Tree, arguments: List[MacroArgument]):
         self.name = name_token.value
@@ -4264,6 +4276,8 @@ class Macro:
                     value = parse_ctx._lookup_named_entity(MacroArgumentKind.EXPR, value.children[0])
                 except UndefinedReferenceError:
                     pass
+            if not argspec.should_early_bind() and not isinstance(value, BoundArgumentTree):
+                value = BoundArgumentTree(value, parse_ctx.bound_argument_stack)
             bound_arguments[(argspec.get_lookup_type(), argspec.name)] = value
         return bound_arguments
 
@@ -4395,6 +4409,17 @@ class ParseCtx:
                 }[context], from_tree)
 
             return storage[name]
+
+    def _parse_in_argument_scope(self, parse_function, expr: BoundArgumentTree, *args, **kwargs):
+        """
+        Parse a match/expr macro argument with the argument frames of its call site active.
+        """
+        saved_stack = self.bound_argument_stack
+        self.bound_argument_stack = list(expr.scope)
+        try:
+            return parse_function(lark.Tree(expr.data, expr.children, expr.meta), *args, **kwargs)
+        finally:
+            self.bound_argument_stack = saved_stack
 
     def _parse_macro_arguments(self, args: lark.Tree):
         if args.data == "macro_arg_empty":
@@ -4559,6 +4584,9 @@ class ParseCtx:
         Parse a math expr [(something)]
         """
 
+        if isinstance(expr, BoundArgumentTree):
+            return self._parse_in_argument_scope(self._parse_math_expr, expr, into_storage=into_storage)
+
         if expr.data == "math_num":
             return ProgramData.imbue(ProgramData.imbue(LiteralIntegerExpr(self._convert_int(expr.children[0].value)), DTAG.SOURCE_LINE, expr.meta.line), DTAG.SOURCE_COLUMN, expr.meta.column)
         elif expr.data == "math_char_const":
@@ -4631,6 +4659,9 @@ class ParseCtx:
         Parse an integer type expr (also has bool/etc.)
         """
 
+        if isinstance(expr, BoundArgumentTree):
+            return self._parse_in_argument_scope(self._parse_integer_expr, expr, into_storage=into_storage)
+
         BANNED_TYPES = ["end_expr", "concat_expr", "regex", "string_const", "string_case_const", "binary_regex", "binary_string_const"]
         if expr.data in BANNED_TYPES:
             raise IllegalParseTree("String-typed value encountered for integer-typed expression", expr)
@@ -4687,6 +4718,8 @@ class ParseCtx:
         """
         Parse a match expression into a match object
         """
+        if isinstance(expr, BoundArgumentTree):
+            return self._parse_in_argument_scope(self._parse_match_expr, expr)
         if expr.data in ["string_const", "binary_string_const"]:
             actual_content = expr.children[0]
             if expr.data == "string_const":
